@@ -463,11 +463,32 @@ def emitted_arity(chk, repo, gen):
         except Exception:  # noqa: BLE001 - C02 reports generator problems
             continue
 
-        def value_of(e):
-            if isinstance(e, ast.Constant) and isinstance(e.value, int):
+        def value_of(e, depth=0):
+            """the lambda's own arity as it reaches `e`: an int constant,
+            ctx.default_arity, the fallback of getattr(self, 'stored_arity',
+            <own>), or a local bound to one of those (the caller-supplied
+            `arity` / `self.stored_arity` are not the lambda's own)"""
+            if isinstance(e, ast.Constant) and isinstance(e.value, int) \
+                    and not isinstance(e.value, bool) and e.value != -1:
                 return e.value
             if (dotted(e) or "") == "ctx.default_arity":
                 return "default"
+            if isinstance(e, ast.Call) and dotted(e.func) == "getattr" \
+                    and len(e.args) == 3:
+                return value_of(e.args[2], depth + 1)
+            if isinstance(e, ast.IfExp):
+                for br in (e.body, e.orelse):
+                    v = value_of(br, depth + 1)
+                    if v is not None:
+                        return v
+            if isinstance(e, ast.Name) and depth < 3:
+                for a in ast.walk(tree):
+                    if isinstance(a, ast.Assign) and any(
+                            isinstance(t, ast.Name) and t.id == e.id
+                            for t in a.targets):
+                        v = value_of(a.value, depth + 1)
+                        if v is not None:
+                            return v
             return None
 
         announced = [value_of(a.value) for a in ast.walk(tree)
